@@ -16,6 +16,26 @@ RULE = ('tables from tables.rand_spec (dims 1..4, layout recipes incl. unsorted 
         'non-trivial = table with >= 2 ids on the filtered axis and a selection that is neither empty nor everything; distinct by case hash')
 TRUSTED = ['hand-written model coq/Model/Filter.v tied to biom/table.py + biom/_filter.pyx by this correspondence run',
            'compiled kernels are the shipped .so (Cython absent); when a .pyx differs from the pinned hash the harness runs the interpreted source instead (tools/decython.py)']
+_TRUSTED_BASE = list(TRUSTED)
+
+
+def regenerate():
+    """re-translate the kernel loops of biom/_filter.pyx into coq/Gen/FilterGen.v (rebuild_body, remove_rows)"""
+    import os
+    import re
+    from . import core
+    rc, out = core.sh([os.path.join(core.ROOT, 'tools', 'regen.sh'), 'filter'], timeout=300)
+    del TRUSTED[:]
+    TRUSTED.extend(_TRUSTED_BASE)
+    if rc != 0:
+        msg = [ln for ln in out.split('\n') if 'REFUSED' in ln]
+        TRUSTED.append('translator REFUSED biom/_filter.pyx on this run; coq/Gen/FilterGen.v is stale')
+        raise core.Broken('translator rejected biom/_filter.pyx: %s' % (msg[0].split('REFUSED', 1)[1].strip() if msg else 'rc=%d' % rc), out[-3000:])
+    m = re.search(r'-> (\S+) (written|unchanged) \(source sha256 ([0-9a-f]+)\)', out)
+    TRUSTED.append('coq/Gen/FilterGen.v (rebuild_body, remove_rows) regenerated from biom/_filter.pyx by tools/py2v via '
+                   'tools/decython.py on this run (%s; sha256 of source %s)' % (m.group(2) if m else '?', m.group(3) if m else '?'))
+
+
 ASSUMPTIONS = ['predicates are deterministic functions of (vector, id, metadata) and copy the vector on receipt']
 
 PREDS = {
